@@ -5,6 +5,7 @@ current files - nothing is written to /repo, nothing is executed.
 Variant sources:
   selftest/mutants/<prop>.json   hand-written substitutions  {id, file, old, new, kind: breaking|benign, expect: [rule prefixes], why}
   seeded/<id>/patch.diff         changes written by independent sub-agents (breaking; confirmed with a failing demonstration)
+  selftest/refactors/<p>/rN.diff behaviour-preserving refactorings written by independent sub-agents (benign, all 20 checks)
   selftest/reverts.json          the defects repaired by fix: commits, re-introduced by reversing the commit's diff
 A variant whose anchor text no longer exists in /repo is reported as `stale` (never as killed)."""
 from __future__ import annotations
@@ -132,6 +133,14 @@ def load_cases(root: str, prop: str | None = None):
 
     for gid, (_fn, why) in _T.GENERATED.items():
         cases.append({"id": gid, "props": [f"C{i:02d}" for i in range(1, 21)], "kind": "benign", "gen": gid, "source": "generated", "why": why})
+    # behaviour-preserving refactorings written by independent sub-agents (property text only): every check must stay silent on each
+    rdir = os.path.join(HERE, "refactors")
+    if os.path.isdir(rdir):
+        for d in sorted(os.listdir(rdir)):
+            for f in sorted(os.listdir(os.path.join(rdir, d))):
+                if f.endswith(".diff"):
+                    cases.append({"id": f"refactor:{d}-{f[:-5]}", "props": [f"C{i:02d}" for i in range(1, 21)], "kind": "benign", "diff": open(os.path.join(rdir, d, f)).read(),
+                                  "source": "refactor", "why": "independent behaviour-preserving refactoring"})
     rf = os.path.join(HERE, "reverts.json")
     if os.path.exists(rf):
         for c in json.load(open(rf)):
